@@ -98,7 +98,7 @@ pub struct TpmServer1_2 {
 
 impl TpmServer1_2 {
     pub fn new(oem_id: [u8; 6], oem_table_id: [u8; 8], oem_revision: u32) -> Self {
-        let mut header = TableHeader {
+        let header = TableHeader {
             signature: *b"TCPA",
             length: 100.into(),
             revision: 2,
@@ -111,17 +111,13 @@ impl TpmServer1_2 {
         };
         let tcg_spec_rev_bcd = [1u8, 2];
 
-        let mut cksum = Checksum::default();
-        cksum.append(header.as_bytes());
-        cksum.append(&tcg_spec_rev_bcd);
-        header.checksum = cksum.value();
-
         Self {
             header,
             tcg_spec_rev_bcd,
             platform_class: (PlatformClass::Server as u16).into(),
             ..Default::default()
         }
+        .update_header()
     }
 
     fn update_header(mut self) -> Self {
